@@ -31,6 +31,8 @@ Cat == {
   Ok(<< <<4, 1>>, <<5, 5>> >>, <<>>),                                          \* bad cipher among the legacy keys
   Ok(<<>>, << Svc(<<2, 1>>, <<U(1), T(3)>>), Svc(<<4>>, <<T(2)>>) >>),
   Ok(<<>>, << Svc(<<1, 7, 2>>, <<T(1), U(1)>>), Svc(<<7, 4>>, <<T(2), U(2)>>) >>),
+  Ok(<< <<4, 1>>, <<5, 3>>, <<4, 2>>, <<5, 6>>, <<4, 6>> >>, <<>>),                  \* legacy keys with interleaved ports
+  Ok(<< <<5, 2>>, <<4, 3>>, <<5, 1>> >>, << Svc(<<7>>, <<T(1), U(1)>>) >>),
   \* "siblings": the listeners of a configuration above with OTHER keys, failing after that service was processed
   \* (state of a rejected configuration must not leak into the running one)
   Ok(<<>>, << Svc(<<3, 6>>, <<T(1), U(1)>>), Svc(<<1, 5>>, <<T(3)>>) >>),     \* bad cipher in the second service
